@@ -198,10 +198,10 @@ def natList (rec : Val → Except VErr Bytes × Bool) : List Val → Bool → Ex
       | (.error e, c') => (.error e, c')
       | (.ok os, c') => (.ok (o ++ os), c')
 
-/-- `natv .asShipped` for all orders at once -/
-def natAll (h : Heap) : Nat → Val → Except VErr Bytes × Bool
-  | 0, _ => (.error .fuel, false)
-  | f+1, v =>
+/-- `natvP .asShipped` (the repaired `BuildParamToNative`) for all orders at once; `on` = containers on the recursion path -/
+def natAll (h : Heap) : Nat → List Ref → Val → Except VErr Bytes × Bool
+  | 0, _, _ => (.error .fuel, false)
+  | f+1, on, v =>
     let (canT, canF) := detAll h v
     if !canF then (.error .cycle, true) else
     match v with
@@ -209,10 +209,13 @@ def natAll (h : Heap) : Nat → Val → Except VErr Bytes × Bool
       match h[r]? with
       | none => (.error .dangling, canT)
       | some (.arr vs) =>
-        match natList (natAll h f) vs canT with
+        if decide (vs.length > 0) && on.contains r then (.error .cycle, canT) else
+        match natList (natAll h f (r :: on)) vs canT with
         | (.error e, c) => (.error e, c)
         | (.ok body, c) => (.ok (writeVarBytes (toNeo vs.length) ++ body), c)
-      | some (.struct vs) => natList (natAll h f) vs canT
+      | some (.struct vs) =>
+        if decide (vs.length > 0) && on.contains r then (.error .cycle, canT) else
+        natList (natAll h f (r :: on)) vs canT
       | some (.map _) => (.error .badtype, canT)
     | leaf => (.ok (natLeaf leaf), canT)
 
@@ -302,7 +305,7 @@ def handle (line : String) : String :=
           else []
         alts head (chk ++ outcomeSets (serOut r) c ++ [serOut (serialize .sound Perm.id h v)])
       else
-        let (r, c) := natAll h (h.length + 2) v
+        let (r, c) := natAll h (h.length + 2) [] v
         let chk := if (allChoices h).length ≤ 64 then
             (allChoices h).filterMap fun ch =>
               let o := serOut (buildParamToNative .asShipped (choicePerm ch) h v)
